@@ -216,6 +216,61 @@ pub fn run(tier: Tier) -> i32 {
             check_case(&ctx, &cfg, &ops_of(p, v));
         });
     }
+    // part 4 (thorough): key material from single-bit alphabets (every bit of each psk / static / ephemeral
+    // private key, one at a time) on patterns that use all of them
+    if !ctx.quick() {
+        let names: Vec<Proto> = ["XX", "IK", "KK", "X1X1"].iter().flat_map(|b| {
+            let bp = patterns::base_patterns().into_iter().find(|p| p.name == *b).unwrap();
+            let n = bp.msgs.len() as u8;
+            vec![Proto::new(&bp, &[0, n], refnoise::DhAlg::X25519, refnoise::CipherAlg::ChaChaPoly, refnoise::HashAlg::Sha512).unwrap(), Proto::new(&bp, &[1], refnoise::DhAlg::P256, refnoise::CipherAlg::AesGcm, refnoise::HashAlg::Blake2s).unwrap()]
+        }).collect();
+        let jobs: Vec<(Proto, usize, usize)> = names.iter().flat_map(|p| (0..5usize).flat_map(move |which| (0..256usize).map(move |bit| (p.clone(), which, bit)))).collect();
+        ctx.count("single_bit_key_cases", jobs.len() as u64);
+        jobs.par_iter().for_each(|(p, which, bit)| {
+            let mut cfg = cfg_of(p, &d, Backend::Default);
+            let mut k = [0u8; 32];
+            k[bit / 8] = 1 << (bit % 8);
+            // P-256 scalars must stay below n: keep the top byte clear for private keys
+            let mut sk = k.to_vec();
+            if p.dh == refnoise::DhAlg::P256 {
+                sk[0] &= 0x7f;
+                if sk.iter().all(|b| *b == 0) {
+                    sk[31] = 1;
+                }
+            }
+            let pk = |s: &Vec<u8>| p.dh.pubkey(s);
+            match which {
+                0 => {
+                    if cfg.s_priv[0].is_some() {
+                        cfg.s_priv[0] = Some(sk.clone());
+                        if cfg.rs_pub[1].is_some() {
+                            cfg.rs_pub[1] = pk(&sk);
+                        }
+                    }
+                },
+                1 => {
+                    if cfg.s_priv[1].is_some() {
+                        cfg.s_priv[1] = Some(sk.clone());
+                        if cfg.rs_pub[0].is_some() {
+                            cfg.rs_pub[0] = pk(&sk);
+                        }
+                    }
+                },
+                2 => cfg.eph[0] = Eph::Fixed(sk.clone()),
+                3 => cfg.eph[1] = Eph::Fixed(sk.clone()),
+                _ => {
+                    for s in 0..2 {
+                        for slot in cfg.psks[s].iter_mut() {
+                            if slot.is_some() {
+                                *slot = Some(k);
+                            }
+                        }
+                    }
+                },
+            }
+            check_case(&ctx, &cfg, &ops_of(p, &d));
+        });
+    }
     ctx.states.store(ctx.evaluations.load(Ordering::Relaxed), Ordering::Relaxed);
     let p0 = &all[0];
     ctx.sample(sess::case_json(&cfg_of(p0, &d, Backend::Default), &ops_of(p0, &d)));
